@@ -532,6 +532,16 @@ def run(tier):
         ncorr["create_padding"] += 1
         if m is not None and m != r:
             note_diff("create_padding", c, m, r)
+    # the 1-D composition used by the theorems (Stripe.stripe_h = transform's height part + create_padding's selection,
+    # Stripe.stripe_taps_ok = the tap comparison) against the real functions' results and the Python oracle
+    shcases = [[me[0], me[7], me[1], me[2], me[3], me[12][0], me[12][2], me[13][0], me[13][2], me[8], me[10], me[11]] for (me, tr) in pmeta]
+    for c, m, (me, tr), pr in zip(shcases, mrun("stripe_h", shcases), pmeta, preal):
+        ncorr["stripe_h (1-D composition)"] += 1
+        (H, k, d, s, pad, t, bb, Ho, woff, step, st, en, padding, skirt) = me
+        ok = stripe_tap_mismatch(tr[2], tr[6], pr[0], pr[2], st, en, s, k, d, 0, H, padding[0], woff) is None
+        want = [tr[2], tr[6], pr[0], pr[2], 1 if ok else 0]
+        if m is not None and m != want:
+            note_diff("stripe_h / stripe_taps_ok", c, m, want)
     for (me, tr), pr in zip(pmeta, preal):
         (H, k, d, s, pad, t, bb, Ho, woff, step, st, en, padding, skirt) = me
         evals += 1
@@ -909,8 +919,9 @@ def run(tier):
                              consumer_stripe_height=cons["stripe"][1], producer_stripe_height=prod["stripe"][1], stripe_input_height=hin,
                              rolling_buffer_height=hb),
                         "rolling buffer of %d rows (producer stripe %d, stripe_input %d) between cascaded operators: consumer stripe rows %r needs "
-                        "IFM row %d but its slot already holds row %r (H=%d k=%d s=%d %s)" % (
-                            hb, prod["stripe"][1], hin, lost["consumer_ofm_rows"], lost["needs_row"], lost["slot_holds_row"], cons["ifm"][1],
+                        "IFM row %d but its slot holds %s (H=%d k=%d s=%d %s)" % (
+                            hb, prod["stripe"][1], hin, lost["consumer_ofm_rows"], lost["needs_row"],
+                            "nothing (the row was never produced)" if lost["slot_holds_row"] is None else "row %d already" % lost["slot_holds_row"], cons["ifm"][1],
                             cons["k"], cons["s"], cons["pad"]))
     # the rolling buffer machine of the model against the same simulation (correspondence of cascade_events/run_events)
     ccases, cmeta = [], []
@@ -945,6 +956,7 @@ def run(tier):
     import compiles
     d2 = compiles.run_all(compiles.corpus_jobs() + compiles.plan(FAMS, 64 if tier == "quick" else 1600, vlib.seed(), tag="d2", capture=True))
     programs = passes_checked = stripes_checked = rolling_checked = 0
+    vcases, vwant = [], []
     outside = collections.Counter()
     d2_samples = []
     for r in d2:
@@ -1025,6 +1037,10 @@ def run(tier):
                             continue      # transposed convolution: reference semantics outside this check (weights are flipped)
                         mm = stripe_tap_mismatch(cmd["ifm_box"]["start"][ai], cmd["ifm_box"]["end"][ai], p0, p1, ob["start"][ai], ob["end"][ai], ss_, kk, dd,
                                                  lo_, hi_, top, woff[ai], rmode)
+                        if rmode == 0:    # the proved validator (check_stripes_sound) on the same stripe
+                            vcases.append([cmd["ifm_box"]["start"][ai], cmd["ifm_box"]["end"][ai], p0, p1, ob["end"][ai] - ob["start"][ai], ss_,
+                                           dd * (kk - 1) + 1, dd, kk, lo_, hi_, top, ob["start"][ai] - woff[ai]])
+                            vwant.append(mm is None)
                         if mm:
                             kind = ("read_offset_height" if (roff and roff[1] and axis == "h" and (ss_ > 1 or opad[0] + opad[2] > 0)) else
                                     "read_offset_width_strided" if (roff and roff[2] and axis == "w" and ss_ > 1) else "tap_mismatch")
@@ -1063,8 +1079,14 @@ def run(tier):
                     for y in range(ob["start"][1], ob["end"][1]):
                         m_[y % hb] = y
 
+    validator_disagreements = 0
+    for c, m, w in zip(vcases, mrun("check_taps", vcases), vwant):
+        if m is not None and (m[0] == 1) != w:
+            validator_disagreements += 1
+            note_diff("check_stripe_taps (extracted validator) vs the Python oracle", c, m, [1 if w else 0])
     lap('d2')
     res.cov.update({
+        "stripe_axes_validated_by_extracted_checker": len(vcases), "validator_vs_oracle_disagreements": validator_disagreements,
         "section_seconds": dict(tsec),
         "evaluations": evals, "distinct_nontrivial": len(nontrivial),
         "rule": "oracle evaluations on results of the real functions: one per (operator geometry, stripe) for tap equality (all rows x taps "
